@@ -58,6 +58,10 @@ Record doc := mkDoc {
   d_objs : list (str * bool * list (str * Q));           (* fbc:id, type = maximize, (reaction, coefficient) *)
   d_groups : list dgroup }.
 
+(* the identifiers that share the model-wide SId namespace of SBML core (the validator demands them distinct) *)
+Definition core_sids (d : doc) : list str :=
+  map fst (d_comps d) ++ map sp_id (d_species d) ++ map (fun p => fst (fst p)) (d_params d) ++ map dr_id (d_rxns d).
+
 (* what is regenerated from the source (Gen/SbmlTables.v): prefixes, SBML_DOT, the five shared parameter ids,
    and how the reader creates a reaction before assigning its bounds *)
 Record senv := mkEnv {
